@@ -17,8 +17,10 @@ LeavesOfKids(kids, i) == IF i > Len(kids) THEN <<>> ELSE Leaves(kids[i]) \o Leav
 
 (***************************************************************************)
 (* Assembly: MockAssembler::push for every pattern of every leaf in order. *)
-(* retOK(m, s) tells whether returns() of segment s can be stored in the   *)
-(* current feature set (single-use values need a mutex API).               *)
+(* noMx is the set of methods whose single-use returns() cannot be stored  *)
+(* in the current feature set: empty when a mutex API exists (std or       *)
+(* spin-lock), otherwise the methods with an owned output (a lent output   *)
+(* is stored once and borrowed, it needs no mutex).                        *)
 (***************************************************************************)
 \* pattern record stored per method
 MkPat(leaf, li, pi, b, lo, hi) ==
@@ -26,7 +28,7 @@ MkPat(leaf, li, pi, b, lo, hi) ==
    resps |-> b.resps, min |-> b.min, ex |-> b.ex, lo |-> lo, hi |-> hi, li |-> li, pi |-> pi]
 
 RECURSIVE AsmPats(_, _, _, _, _)
-AsmPats(leaf, li, j, st, HasMutexApi) ==
+AsmPats(leaf, li, j, st, noMx) ==
   IF st.err.k # "ok" \/ j > Len(leaf.pats) THEN st
   ELSE LET pb   == leaf.pats[j]
            mode == Mode(leaf.form)
@@ -35,7 +37,7 @@ AsmPats(leaf, li, j, st, HasMutexApi) ==
            lo   == IF mode = "ord" THEN st.cur ELSE 0
            hi   == IF mode = "ord" THEN st.cur + b.min ELSE 0
            cur2 == IF mode = "ord" THEN hi ELSE st.cur
-       IN IF needsMutex /\ ~HasMutexApi
+       IN IF needsMutex /\ leaf.m \in noMx
           THEN [st EXCEPT !.err = [k |-> "NoMutexApi", m |-> leaf.m]]
           ELSE IF leaf.m \in DOMAIN st.tab /\ st.tab[leaf.m].mode # mode
           THEN [st EXCEPT !.err = [k |-> "ModeConflict", m |-> leaf.m]]
@@ -43,17 +45,17 @@ AsmPats(leaf, li, j, st, HasMutexApi) ==
                    tab2 == [mm \in (DOMAIN st.tab) \cup {leaf.m} |->
                               IF mm = leaf.m THEN [mode |-> mode, pats |-> Append(old, MkPat(leaf, li, j, b, lo, hi))]
                               ELSE st.tab[mm]]
-               IN AsmPats(leaf, li, j + 1, [tab |-> tab2, cur |-> cur2, err |-> st.err], HasMutexApi)
+               IN AsmPats(leaf, li, j + 1, [tab |-> tab2, cur |-> cur2, err |-> st.err], noMx)
 
 RECURSIVE AsmFrom(_, _, _, _)
-AsmFrom(leaves, i, st, HasMutexApi) ==
+AsmFrom(leaves, i, st, noMx) ==
   IF st.err.k # "ok" \/ i > Len(leaves) THEN st
   ELSE IF Len(leaves[i].pats) = 0 THEN [st EXCEPT !.err = [k |-> "EmptyStub", m |-> leaves[i].m]]
-  ELSE AsmFrom(leaves, i + 1, AsmPats(leaves[i], i, 1, st, HasMutexApi), HasMutexApi)
+  ELSE AsmFrom(leaves, i + 1, AsmPats(leaves[i], i, 1, st, noMx), noMx)
 
 EmptyTab == [x \in {} |-> 0]
-Assemble(leaves, HasMutexApi) ==
-  AsmFrom(leaves, 1, [tab |-> EmptyTab, cur |-> 0, err |-> [k |-> "ok"]], HasMutexApi)
+Assemble(leaves, noMx) ==
+  AsmFrom(leaves, 1, [tab |-> EmptyTab, cur |-> 0, err |-> [k |-> "ok"]], noMx)
 
 (***************************************************************************)
 (* The statement of C14, second sentence, independent of the order in      *)
@@ -62,17 +64,17 @@ Assemble(leaves, HasMutexApi) ==
 (* non-empty, with (any) one of its members; which one is reported when    *)
 (* several apply is an accident of the implementation.                     *)
 (***************************************************************************)
-Offences(leaves, HasMutexApi) ==
+Offences(leaves, noMx) ==
   { [k |-> "EmptyStub", m |-> leaves[i].m] : i \in { j \in 1..Len(leaves) : Len(leaves[j].pats) = 0 } }
   \cup { [k |-> "ModeConflict", m |-> leaves[i].m] :
             i \in { j \in 1..Len(leaves) : Len(leaves[j].pats) > 0 /\
                       \E h \in 1..Len(leaves) : Len(leaves[h].pats) > 0 /\ leaves[h].m = leaves[j].m /\ Mode(leaves[h].form) # Mode(leaves[j].form) } }
   \cup { [k |-> "NoMutexApi", m |-> leaves[i].m] :
-            i \in { j \in 1..Len(leaves) : ~HasMutexApi /\
+            i \in { j \in 1..Len(leaves) : leaves[j].m \in noMx /\
                       \E pj \in 1..Len(leaves[j].pats) : \E si \in 1..Len(leaves[j].pats[pj].chain) : SingleUse(leaves[j].form, si, leaves[j].pats[pj].chain[si]) } }
 \* push()'s verdict is one of the offences, and "ok" exactly when there is none
-AssembleAgrees(leaves, HasMutexApi) ==
-  LET e == Assemble(leaves, HasMutexApi).err  o == Offences(leaves, HasMutexApi) IN
+AssembleAgrees(leaves, noMx) ==
+  LET e == Assemble(leaves, noMx).err  o == Offences(leaves, noMx) IN
   IF o = {} THEN e.k = "ok" ELSE e \in o
 
 (***************************************************************************)
@@ -96,7 +98,7 @@ Owners(tab, s) == { o \in AllPats(tab) : tab[o[1]].pats[o[2]].lo <= s /\ s < tab
 
 \* cumulative slot ranges = flattened sequence
 FlatOK(leaves) ==
-  LET a == Assemble(leaves, TRUE)  f == Flat(leaves) IN
+  LET a == Assemble(leaves, {})  f == Flat(leaves) IN
   a.err.k = "ok" =>
     /\ a.cur = Len(f)
     /\ \A s \in 0..(Len(f) - 1) :
@@ -133,5 +135,5 @@ Perms(n) == { f \in [1..n -> 1..n] : \A i, j \in 1..n : i # j => f[i] # f[j] }
 PermInvariant(leaves) ==
   \A perm \in Perms(Len(leaves)) :
      Admissible(leaves, perm) =>
-        Observable(Assemble(Permuted(leaves, perm), TRUE)) = Observable(Assemble(leaves, TRUE))
+        Observable(Assemble(Permuted(leaves, perm), {})) = Observable(Assemble(leaves, {}))
 =============================================================================
